@@ -7,7 +7,7 @@ import torch
 ID = "C20"
 LEVEL = "model_checking"
 DESIGN_REF = "DESIGN.md §5 C20"
-RULE = ("case = (structure tree with <= N nodes over containers list/dict/object and leaves tensor-slot/None/"
+RULE = ("case = (structure tree with <= N nodes over containers list/dict (plain, OrderedDict, user subclass, defaultdict)/object and leaves tensor-slot/None/"
         "mutable-set/tuple-holding-a-tensor, alias partition of its tensor slots); inside a case every call history "
         "over 16 events (4 getters, 12 constructor calls incl. wrong length/shape/numel) is replayed from a fresh "
         "Packer: all sequences to depth D undeduplicated plus breadth-first search deduplicated on the reference "
@@ -27,6 +27,21 @@ CONTAINERS = ["L", "D", "O"]
 
 class Obj:
     pass
+
+
+class XDict(dict):
+    """a user's dictionary subclass (instances carry an attribute __dict__ as well)"""
+
+
+# which dictionary type the "D" nodes of the case in progress are built with (set by run_case; workers are
+# single-threaded): plain dict, collections.OrderedDict, a user subclass of dict, collections.defaultdict
+_DVAR = ["dict"]
+
+
+def _dict_type():
+    import collections
+    return {"dict": dict, "odict": collections.OrderedDict, "xdict": XDict,
+            "ddict": collections.defaultdict}[_DVAR[0]]
 
 
 # ------------------------------------------------------------------ structure enumeration
@@ -109,6 +124,14 @@ def cases(tier, seed):
             for part in partitions(ns):
                 depth = 3 if n <= 3 else 2
                 out.append({"spec": spec, "part": part, "nodes": n, "depth": depth})
+    # dictionary variants: every structure with <= 3 (quick) / 4 (thorough) nodes that contains a dictionary
+    for n in range(2, (4 if tier == "quick" else 5)):
+        for spec in _trees(n):
+            if "'D'" not in repr(spec):
+                continue
+            for part in partitions(count_slots(spec)):
+                for dv in ("odict", "xdict", "ddict"):
+                    out.append({"spec": spec, "part": part, "nodes": n, "depth": 2, "dvar": dv})
     return out
 
 
@@ -145,7 +168,12 @@ def build(spec, part):
         if k == "L":
             return ch
         if k == "D":
-            return {"k%d" % i: c for i, c in enumerate(ch)}
+            d = _dict_type()()
+            for i, c in enumerate(ch):
+                d["k%d" % i] = c
+            if _DVAR[0] == "xdict":
+                d.note = "attribute of the dictionary object, not an item"
+            return d
         o = Obj()
         for i, c in enumerate(ch):
             setattr(o, "a%d" % i, c)
@@ -162,7 +190,9 @@ def children(node, sp):
             return None
         return list(node)
     if k == "D":
-        if type(node) is not dict or list(node.keys()) != ["k%d" % i for i in range(n)]:
+        if type(node) is not _dict_type() or list(node.keys()) != ["k%d" % i for i in range(n)]:
+            return None
+        if _DVAR[0] == "xdict" and getattr(node, "note", None) != "attribute of the dictionary object, not an item":
             return None
         return list(node.values())
     if type(node) is not Obj or list(node.__dict__.keys()) != ["a%d" % i for i in range(n)]:
@@ -471,6 +501,7 @@ def replay(spec, part, hist):
 
 def run_case(cfg):
     spec, part, depth = cfg["spec"], cfg["part"], cfg["depth"]
+    _DVAR[0] = cfg.get("dvar", "dict")
     viol = []
     table = {}
     n_exec = 0
